@@ -10,7 +10,7 @@ GETTER_TASKS = getter_tasks()
 ID = "C08"
 META = {
     "assumptions": ['A-REAL', 'A-COMM', 'A-T', 'A-IND', 'A-CYTHON', 'A-SOLVER', 'A-ENGINE'],
-    "explanation": "update proved to write its own history buffers only at the current index (append-only frame, skolemised row), to write nothing outside the node, its children's subtrees and root.stale, to reset accumulators only on a date change and to leave root.stale False; every security update proved (lemma over its functional spec) to be idempotent: update;update == update on every heap map; a redundant update of a strategy proved to leave the node's own scalars, bankrupt flag and history rows unchanged (parked coupons are swept only on a date change - loop invariant).",
+    "explanation": "update proved to write its own history buffers only at the current index (append-only frame, skolemised row), to write nothing outside the node, its children's subtrees and root.stale, to reset accumulators only on a date change and to leave root.stale False; every security update proved (lemma over its functional spec) to be idempotent: update;update == update on every heap map; every mutator (adjust, transact, allocate, flatten) proved to update or to leave root.stale set, for every amount including zero; a redundant update of a strategy proved to leave the node's own scalars, bankrupt flag and history rows unchanged (parked coupons are swept only on a date change - loop invariant).",
 }
 MANIFEST_ENTRY = {
     "level_text": 'Deductive proof of the positional write frames and of security-level idempotence for all states.',
@@ -24,6 +24,10 @@ def tasks(tier, seed):
         *[func(q) for q in GETTER_TASKS],
         func("bt.backtest.Backtest.run"),
         func("bt.core.StrategyBase.flatten"),
+        # "pending changes": every mutator either updates or marks the root stale, whatever the amounts are (a zero-cash trade still moves a position)
+        func("bt.core.StrategyBase.adjust"),
+        func("bt.core.SecurityBase.transact"),
+        func("bt.core.StrategyBase.allocate"),
         *UPDATE_ALL,
         func("bt.core.SecurityBase.update"),
         func("bt.core.FixedIncomeSecurity.update"),
